@@ -227,7 +227,7 @@ comparable with anything -/
 theorem ordCmp_some_of_admits (op : Op) (a v w : Atom) (o : Ordering) (hop : isOrd op = true)
     (had : boundAdmits ⟨op, a⟩ v = true) (hw : ordCmp v w = some o) : ∃ o', ordCmp v a = some o' := by
   cases a <;> cases v <;>
-    simp [boundAdmits, Atom.isNum, Atom.sameKind, Atom.kindBit] at had <;>
+    simp [boundAdmits, Atom.isNum, Atom.sameKind, Atom.kindBit, Atom.isNull] at had <;>
     first
       | exact ⟨_, rfl⟩
       | (subst had; simp [isOrd] at hop)
@@ -528,18 +528,23 @@ theorem Kind.sub_trans {a b c : Kind} (h1 : Kind.sub a b) (h2 : Kind.sub b c) : 
 
 theorem kind_has_admits (b : Bound) (v : Atom) : Kind.has b.kind v = boundAdmits b v := by
   obtain ⟨op, a⟩ := b
-  cases a <;> cases v <;> first | rfl | (cases op <;> rfl)
+  cases a <;> cases v <;> (try cases op) <;>
+    simp [Bound.kind, boundAdmits, Kind.has, Atom.kind, Atom.kindBit, Atom.isNull, Atom.isNum, Atom.sameKind,
+      Kind.nonNull, Kind.null, Kind.number] <;> decide
 
 theorem atom_kind_has (a v : Atom) : Kind.has a.kind v = v.sameKind a := by
-  cases a <;> cases v <;> rfl
+  cases a <;> cases v <;> simp [Kind.has, Atom.kind, Atom.kindBit, Atom.sameKind] <;> decide
 
 theorem bound_kind_ne_zero (b : Bound) : b.kind ≠ 0 := by
   obtain ⟨op, a⟩ := b
-  cases a <;> first | decide | (cases op <;> decide)
+  cases a <;> (try cases op) <;>
+    simp [Bound.kind, Atom.kind, Atom.kindBit, Kind.nonNull, Kind.null, Kind.number]
 
-theorem atom_kind_ne_zero (a : Atom) : a.kind ≠ 0 := by cases a <;> decide
+theorem atom_kind_ne_zero (a : Atom) : a.kind ≠ 0 := by
+  cases a <;> simp [Atom.kind, Atom.kindBit]
 
-theorem top_has (v : Atom) : Kind.has Kind.top v = true := by cases v <;> rfl
+theorem top_has (v : Atom) : Kind.has Kind.top v = true := by
+  cases v <;> simp [Kind.has, Kind.top, Atom.kindBit] <;> decide
 
 theorem has_float (k : Kind) (d : Dec) : Kind.has k (.float d) = k.hasFloat := rfl
 
@@ -624,7 +629,11 @@ theorem opp_err (re : Bytes → Bytes → Bool) (k : Kind) (lo hi : Bound) (v : 
 
 theorem strOpp_both_or_err (xop yop : Op) (c : Ordering) :
     simplifyStrOpp xop yop c = .both ∨ simplifyStrOpp xop yop c = .err := by
-  unfold simplifyStrOpp; cases c <;> simp <;> split <;> simp
+  unfold simplifyStrOpp
+  cases c
+  · simp
+  · by_cases h : (xop == Op.ge && yop == Op.le) = true <;> simp [h]
+  · simp
 
 theorem numOpp_both_or_err (k : Kind) (xop yop : Op) (a b : Dec) :
     simplifyNumOpp k xop yop a b = .both ∨ simplifyNumOpp k xop yop a b = .err := by
